@@ -11,6 +11,7 @@ import AnySyncModel.Driver.Ldiff
 import AnySyncModel.Driver.KV
 import AnySyncModel.Driver.NodeConf
 import AnySyncModel.Driver.Space
+import AnySyncModel.Driver.Auth
 /-!
 `modeld <area>`: reads one operation per line on stdin, prints exactly one line per operation.
 Stateless areas expose `step : String → String`; stateful areas expose
@@ -50,4 +51,5 @@ def main (args : List String) : IO UInt32 := do
   | ["kv"] => loopState stdin stdout Driver.KV.step Driver.KV.init; return 0
   | ["nodeconf"] => loopPure stdin stdout Driver.NodeConf.step; return 0
   | ["space"] => loopPure stdin stdout Driver.Space.step; return 0
+  | ["auth"] => loopState stdin stdout Driver.Auth.step Driver.Auth.init; return 0
   | _ => IO.eprintln s!"modeld: unknown area {args}"; return 2
